@@ -74,6 +74,22 @@ pub fn large_intra(rng: &mut Rng, cfg: &PicCfg) -> SymPicture {
 
 /// A large predicted picture: not-coded macroblocks except a few inter ones (first, last, around
 /// the power-of-two macroblock indices); optionally ends early after `truncate` macroblocks.
+/// Every macroblock inter (one or four vectors, random differentials over the whole range, no
+/// residual): exercises vector prediction at every macroblock address of a large / wide picture.
+pub fn dense_inter(rng: &mut Rng, cfg: &PicCfg) -> SymPicture {
+    let hdr = make_header(cfg, 1, rng);
+    let n = ((cfg.w + 15) / 16) * ((cfg.h + 15) / 16);
+    let mbs = (0..n)
+        .map(|_| {
+            let four = rng.chance(1, 3);
+            let big = rng.chance(1, 4);
+            let mvd: [[i32; 2]; 4] = std::array::from_fn(|_| if big { [rng.range(-32, 31) as i32, rng.range(-32, 31) as i32] } else { [rng.range(-6, 6) as i32, rng.range(-6, 6) as i32] });
+            SymMb::Coded { kind: if four { MbKind::Inter4V } else { MbKind::Inter }, dquant: 1, mvd, blocks: std::array::from_fn(|_| SymBlock::default()) }
+        })
+        .collect();
+    SymPicture { hdr, w: cfg.w, h: cfg.h, mbs, stuffing: vec![] }
+}
+
 pub fn large_inter(rng: &mut Rng, cfg: &PicCfg, disposable: bool, truncate: Option<usize>) -> SymPicture {
     let hdr = make_header(cfg, if disposable { 2 } else { 1 }, rng);
     let n = ((cfg.w + 15) / 16) * ((cfg.h + 15) / 16);
